@@ -9,7 +9,23 @@ use std::collections::HashSet;
 use std::sync::OnceLock;
 
 pub fn case_from_bytes<S: Strategy>(strat: &S, data: &[u8]) -> Option<S::Value> {
-    let rng = TestRng::from_seed(RngAlgorithm::PassThrough, data);
+    // The fuzzer's bytes seed proptest's ChaCha generator (32-byte seed = two FNV hashes of the input
+    // spread over the seed).  proptest's PassThrough generator (bytes used directly as the random stream)
+    // was tried first and abandoned: every prop_flat_map halves the remaining bytes, and once a branch
+    // runs dry it yields zeros, on which rand 0.9's rejection sampling of non-power-of-two ranges never
+    // terminates.  So libFuzzer here keeps and mutates inputs that reached new code, but a mutation gives
+    // an unrelated case: the engine is random generation with corpus retention, sanitizers and the
+    // semantic oracles in-process.
+    let mut seed = [0u8; 32];
+    let h1 = crate::runner::fnv(data);
+    let mut x = h1 | 1;
+    for chunk in seed.chunks_mut(8) {
+        x ^= x << 13;
+        x ^= x >> 7;
+        x ^= x << 17;
+        chunk.copy_from_slice(&x.to_le_bytes());
+    }
+    let rng = TestRng::from_seed(RngAlgorithm::ChaCha, &seed);
     let mut runner = TestRunner::new_with_rng(Config { failure_persistence: None, ..Config::default() }, rng);
     strat.new_tree(&mut runner).ok().map(|t| t.current())
 }
@@ -46,6 +62,9 @@ pub fn run_case<C: std::fmt::Debug + serde::Serialize>(prop: &str, part: &str, c
             }
             if known().iter().any(|k| k.matches_panic(&p)) {
                 return;
+            }
+            if std::env::var("RQV_BT").is_ok() {
+                eprintln!("BACKTRACE:\n{}", p.bt);
             }
             if panic_is_violation {
                 fail(p.describe());
